@@ -1,6 +1,7 @@
 import St4sd.Lemmas.C02f
 import St4sd.Lemmas.C02g
 import St4sd.Model.CtrlEngine
+import St4sd.Model.CtrlGrow
 import St4sd.Model.CtrlSplit
 /-!
 # C02 — Components reach the final state the documented rules prescribe, whatever the event order
@@ -718,6 +719,26 @@ theorem engine_reports_reason_of_this_execution (e : EngS) (l : Launch) :
     (e.execute l).exit = some l.reason := by
   cases l <;> rfl
 
+/-- A fault of the engine's own bookkeeping AFTER the task exited (`FinalisePerformanceInfo` raises,
+so `HandleTaskObservableException` runs instead of `HandleTaskExit` and asks for `UnknownIssue`) does
+not change what the engine reports: the reason of the task that ran - in particular a task that exited
+with `Success` is reported as `Success`, whatever state earlier executions left the engine in. -/
+theorem engine_fault_after_exit_keeps_task_reason (e : EngS) (r : Reason) :
+    (e.execute (.taskThenFault r)).exit = some r ∧
+    (e.execute (.taskThenFault r)).exit = (e.execute (.task r)).exit := ⟨rfl, rfl⟩
+
+/-- That is the work of `_setExitReason`'s preference for `self.process.exitReason`: if the caller's
+reason were taken as it is ("the caller decides"), a successful task followed by such a fault would be
+reported as `UnknownIssue` (a component whose every task succeeded would end failed). -/
+theorem caller_decides_breaks_reported_reason :
+    ∃ (e : EngS) (l : Launch), l.reason = .success ∧ (e.executeCallerDecides l).exit = some .unknownIssue :=
+  ⟨{}, .taskThenFault .success, rfl, rfl⟩
+
+/-- without a post-exit fault the two variants agree (why ordinary runs cannot tell them apart) -/
+theorem caller_decides_agrees_without_fault (e : EngS) (l : Launch) (h : l.faultAfterExit = false) :
+    (e.executeCallerDecides l).exit = (e.execute l).exit := by
+  cases l <;> first | rfl | (simp [Launch.faultAfterExit] at h)
+
 /-- So the sequence of reasons a component's engine reports over its executions (with `restart`
 between them) is exactly the sequence of the executions' reasons: the controller model's `script`. -/
 theorem engine_reported_eq_script (e : EngS) (ls : List Launch) :
@@ -732,10 +753,98 @@ example : ({} : EngS).reported [.task .resourceExhausted, .submitError, .submitE
     [some .resourceExhausted, some .submissionFailed, some .submissionFailed, some .submissionFailed,
      some .success] := by decide
 
+/-- a post-exit fault in the first and in the last execution: the reasons reported are the tasks' -/
+example : ({} : EngS).reported [.taskThenFault .resourceExhausted, .submitError, .taskThenFault .success] =
+    [some .resourceExhausted, some .submissionFailed, some .success] := by decide
+
 /-- with those reasons the restart policy spends one restart and three re-submissions: `finished` -/
 example : ownFrom { n := 1, cdef := fun _ => {}, order := [0] } { restartOn := [.resourceExhausted] }
     [.resourceExhausted, .submissionFailed, .submissionFailed, .submissionFailed, .success] 0 0 = .finished := by
   decide
 
+
+/-! ## I. The verdict of `run()` when the stage grows while it runs (`St4sd/Model/CtrlGrow.lean`)
+
+A DoWhile document injects components into the running stage.  The failure scan of `run()` must look at
+the components the stage has when its loop ENDS (the code re-reads them), not at those it had when
+`run()` started. -/
+
+/-- `verdict` is `verdictOn` of the components of the current stage -/
+theorem verdict_eq_verdictOn (wf : Wf) (s : St) : verdict wf s = verdictOn wf s (stageComps wf s.cur) := rfl
+
+/-- whatever list is inspected: a failed component IN the list makes `run()` raise
+`UnexpectedJobFailureError` -/
+theorem verdictOn_reports_failed (wf : Wf) (s : St) (mine : List Nat) (c : Nat) (hc : c ∈ mine)
+    (hf : (s.comp c).ctrl = some .failed) : verdictOn wf s mine = .jobFailure := by
+  unfold verdictOn
+  have : mine.any (fun c => (s.comp c).ctrl == some .failed) = true :=
+    List.any_eq_true.mpr ⟨c, hc, by simp [hf]⟩
+  simp [this]
+
+/-- and `UnexpectedJobFailureError` is raised only for a failed component of the list -/
+theorem verdictOn_jobFailure_iff (wf : Wf) (s : St) (mine : List Nat) :
+    verdictOn wf s mine = .jobFailure ↔ ∃ c ∈ mine, (s.comp c).ctrl = some .failed := by
+  unfold verdictOn
+  constructor
+  · intro h
+    by_cases ha : mine.any (fun c => (s.comp c).ctrl == some .failed) = true
+    · obtain ⟨c, hc, hf⟩ := List.any_eq_true.mp ha
+      exact ⟨c, hc, by simpa using hf⟩
+    · exfalso
+      have ha' : mine.any (fun c => (s.comp c).ctrl == some .failed) = false := by simpa using ha
+      rw [ha'] at h
+      simp only [Bool.false_eq_true, if_false] at h
+      split at h <;> exact Verdict.noConfusion h
+  · rintro ⟨c, hc, hf⟩
+    have : mine.any (fun c => (s.comp c).ctrl == some .failed) = true :=
+      List.any_eq_true.mpr ⟨c, hc, by simp [hf]⟩
+    simp [this]
+
+/-- the components read at the top of `run()` are among those read at its end -/
+theorem snapshot_subset_of_reread (wf wf' : Wf) (g : Grows wf wf') (k : Nat) :
+    ∀ c ∈ stageComps wf k, c ∈ stageComps wf' k := by
+  intro c hc
+  simp only [stageComps, comps, List.mem_filter, List.mem_range] at hc ⊢
+  exact ⟨Nat.lt_of_lt_of_le hc.1 g.n_le, by rw [g.same c hc.1]; exact hc.2⟩
+
+/-- The re-read list reports EVERY failed component of the stage, also one that a later iteration of
+a loop created: for the grown workflow `wf'`, a failed component of the current stage - whenever it
+came to exist - makes the verdict `UnexpectedJobFailureError`. -/
+theorem reread_reports_every_failed_component (wf' : Wf) (s : St) (c : Nat) (hc : c < wf'.n)
+    (hs : (wf'.cdef c).stage = s.cur) (hf : (s.comp c).ctrl = some .failed) :
+    verdict wf' s = .jobFailure := by
+  rw [verdict_eq_verdictOn]
+  refine verdictOn_reports_failed wf' s _ c ?_ hf
+  simp only [stageComps, comps, List.mem_filter, List.mem_range]
+  exact ⟨hc, by simp [hs]⟩
+
+/-- a failure that the snapshot reports is reported by the re-read list as well (nothing is lost by
+re-reading) -/
+theorem snapshot_failure_is_reread_failure (wf wf' : Wf) (g : Grows wf wf') (s : St)
+    (h : verdictOn wf' s (stageComps wf s.cur) = .jobFailure) :
+    verdictOn wf' s (stageComps wf' s.cur) = .jobFailure := by
+  obtain ⟨c, hc, hf⟩ := (verdictOn_jobFailure_iff wf' s _).mp h
+  exact verdictOn_reports_failed wf' s _ c (snapshot_subset_of_reread wf wf' g s.cur c hc) hf
+
+/-- one looped component per iteration, no consumers: iteration 0 is component 0 -/
+def wfLoop0 : Wf := { n := 1, cdef := fun _ => {}, order := [0] }
+/-- ... after the second iteration (component 1) was instantiated -/
+def wfLoop1 : Wf := { n := 2, cdef := fun _ => {}, order := [0, 1] }
+/-- iteration 0 finished, iteration 1 failed, both recorded -/
+def stLoop : St := { comp := fun c => if c = 0 then { ctrl := some .finished } else { ctrl := some .failed },
+                     done := fun _ => true }
+
+theorem wfLoop_grows : Grows wfLoop0 wfLoop1 := ⟨by decide, fun _ _ => rfl⟩
+
+/-- The snapshot is NOT enough: iteration 1 of a loop ends failed, the stage is complete, and the
+verdict computed on the components that existed when `run()` started is `ok` - the stage containing
+the failed component would not be reported as failed - while the verdict on the re-read list is
+`UnexpectedJobFailureError`. -/
+theorem snapshot_verdict_misses_late_component :
+    Grows wfLoop0 wfLoop1 ∧ stageDone wfLoop1 stLoop = true ∧
+    (∃ c, c < wfLoop1.n ∧ (wfLoop1.cdef c).stage = stLoop.cur ∧ (stLoop.comp c).ctrl = some .failed) ∧
+    verdictOn wfLoop1 stLoop (stageComps wfLoop0 stLoop.cur) = .ok ∧
+    verdict wfLoop1 stLoop = .jobFailure :=
+  ⟨wfLoop_grows, by decide, ⟨1, by decide, by decide, by decide⟩, by decide, by decide⟩
 
 end St4sd.C02
